@@ -13,7 +13,10 @@ from pathlib import Path
 
 prop, k = sys.argv[1], sys.argv[2]
 skip_suite = "--skip-suite" in sys.argv
-wt = Path(f"/tmp/wt/{prop}")
+tag = ""
+if "--tag" in sys.argv:
+    tag = sys.argv[sys.argv.index("--tag") + 1]
+wt = Path(f"/tmp/wt/{prop}{tag}")
 src = wt / "_out" / f"m{k}"
 PY = "/venv/bin/python"
 
@@ -47,7 +50,7 @@ try:
 finally:
     sh(["git", "checkout", "--", "permuta"])
     shutil.rmtree(wt / "dfa_db", ignore_errors=True) if False else None
-dst = Path(f"/verif/seeded/{prop}-m{k}")
+dst = Path(f"/verif/seeded/{prop}-{tag}m{k}")
 dst.mkdir(parents=True, exist_ok=True)
 shutil.copy(src / "patch.diff", dst / "patch.diff")
 shutil.copy(src / "demo.py", dst / "demo.py")
